@@ -616,5 +616,5 @@ func TestC19(t *testing.T) {
 			run(c, t.Fatalf)
 		}
 	}
-	rapid.Check(t, func(rt *rapid.T) { run(genCloneCase(rt), rt.Fatalf) })
+	checkBudget(t, func(rt *rapid.T) { run(genCloneCase(rt), rt.Fatalf) })
 }
